@@ -80,7 +80,7 @@ CHECKS = [
          ref="4/C19"),
     dict(id="C20", engine="cluster-scenario", technique="TLC exhaustive on Provider.tla + B-scenario: an edge cover over the full input alphabet and every input sequence of length 4..5 over a small alphabet, driven into a real SelfManaged provider next to a real agent",
          text="Provider.tla models SelfManaged.Receive (Handshake: add, answer with the complete list, report; Members: add all, report; unreachable: remove exactly the member with that host, report, an unknown address changes nothing, the provider keeps running); TLC checks the action property and the invariants and its state graph is replayed on a real provider actor (real Started: event child, event-stream subscription, mDNS announcer) whose unreachable reports are real RemoteUnreachableEvent broadcasts; after every input the provider's member list (observed as the answer to a handshake), the agent's Members() and the absence of an ActorRestartedEvent for the provider are compared with TLC's state. The regression config with the nil dereference must fail in TLC.",
-         note="member hosts pairwise different; the node's own address is never reported unreachable; nothing listens on the node's address, so peers found by mDNS cannot inject messages; the child -> provider hop after an unreachable report is awaited by polling the provider's list (2 s)",
+         note="member hosts pairwise different at any one time; a member is identified by its id and may come back under a second address (AltHosts), reports for its old address then change nothing; every behaviour is run twice, once with a probing handshake after each input and once leaving the provider alone (asking is an input too); the node's own address is never reported unreachable; nothing listens on the node's address, so peers found by mDNS cannot inject messages; the child -> provider hop after an unreachable report is awaited by polling the provider's list (2 s)",
          ref="4/C20"),
     dict(id="C17", engine="remote-scenario", technique="TLC exhaustive on RemoteLink.tla + B-scenario: every maximal operation sequence replayed on two real engines connected by real remotes over loopback TCP (cmd/remotescen)",
          text="RemoteLink.tla models the router's one-writer-per-address table and the writer's life (dial, connected, unreachable -> shutdown, event to the router, dead letters until the router has seen it) at the grain of operations awaited to quiescence: bursts from sender goroutines, requests answered by the peer, peer down (Remote.Stop().Wait()), a fresh peer up on the same address, Start / Stop called twice. TLC checks delivered-or-dead-lettered-never-both, per-sender order, a fresh attempt after an unreachable episode (action property), replies and reporting, and exports every sequence with the state expected after each step; each sequence runs on real TCP and the harness compares delivered bursts (exactly once, in order, right sender PID, on the right incarnation of the peer), dead letters (count and original target / sender through the unwrapped streamDeliver), RemoteUnreachableEvents, answers, and that a stopped remote refuses connections. The regression config (router never forgets a dead writer) must fail in TLC.",
